@@ -14,7 +14,7 @@ pub mod verdict;
 pub mod c04;
 #[cfg(any(feature = "c04", feature = "c05"))]
 pub mod c05;
-#[cfg(feature = "c08")]
+#[cfg(any(feature = "c08", feature = "c01", feature = "c02", feature = "c03"))]
 pub mod c08;
 #[cfg(feature = "c09")]
 pub mod c09;
